@@ -51,8 +51,12 @@ def run(ctx):
         t += vlib.apalache_check(ctx.scratch, "HandshakeInd", "IndInit", "IndInv", 1, "CInitOriginal", expect_violation=True)
         ind = "spec/HandshakeInd.tla: IndInv is inductive (Apalache, base + step) and implies Bounded, FailClosed, OkOnlyAfterOk, StableAfterOK, NotStuck for MaxRetransmits <= 1000; not inductive for the original handleCEA (%.0f s)" % t
         ctx.log("Apalache: " + ind)
+    variant = []
     if ctx.replay:
         cases = [json.load(open(ctx.replay))["case"]]
+        # the settings variant the scenario had in the full run travels with the case
+        variant = ["-n", "1" if cases[0].get("variant") == "configured" else "2"] if "variant" in cases[0] else []
+        cases = [{k: x for k, x in cases[0].items() if k != "variant"}]
         g = dict(generated=0, distinct=0)
     else:
         g = vlib.tlc_generate(ctx.scratch, "HandshakeGen", "HandshakeGen_quick.cfg" if quick else "HandshakeGen_thorough.cfg", workers=4)
@@ -60,7 +64,7 @@ def run(ctx):
     d = ctx.scratch.sub("h")
     cpath, tpath = os.path.join(d, "cases.ndjson"), os.path.join(d, "trace.ndjson")
     vlib.write_ndjson(cpath, cases)
-    p = vlib.run_harness(ctx.harness, ["handshake", "-cases", cpath, "-out", tpath, "-seed", str(ctx.seed), "-repo", vlib.REPO], timeout=1800)
+    p = vlib.run_harness(ctx.harness, ["handshake", "-cases", cpath, "-out", tpath, "-seed", str(ctx.seed), "-repo", vlib.REPO] + variant, timeout=1800)
     if p.returncode != 0:
         raise vlib.Infra("handshake driver failed: " + p.stderr[-2000:])
     lines = vlib.read_ndjson(tpath)
@@ -88,7 +92,7 @@ def run(ctx):
         for reason in [w.strip().strip('"') for w in why.split(",")]:
             sc = line["script"]
             sig = "%s:%s:extras=%s" % (reason, sc["kind"], "+".join(sorted(set(sc["extras"]))) or "none")
-            v.report(sig, sc, detail="obs=%s" % json.dumps(line["obs"])[:400])
+            v.report(sig, dict(sc, variant="configured" if line.get("note") == "configured" else "plain"), detail="obs=%s" % json.dumps(line["obs"])[:400])
     keys = set(json.dumps(l["script"], sort_keys=True) for l in lines if l["script"]["at"] > 1 or l["script"]["kind"] != "ok" or l["script"]["extras"])
     cov = dict(states=r1["distinct"] + r1d["distinct"] + g["distinct"] + st["distinct"], transitions=r1["generated"] + r1d["generated"] + g["generated"] + st["generated"],
                traces_validated_against_impl=len(lines), evaluations=len(lines), distinct_nontrivial=len(keys),
